@@ -29,7 +29,44 @@ def promiseOk (e : Enc) (s : Bytes) : Bool :=
 /-- the content a reader must recover: text with lone LF turned into CRLF, octets unchanged -/
 def expectedContent (isStr : Bool) (c : Bytes) : Bytes := if isStr then crlfNormalize c else c
 
-def bodyOp : List String → String
+/-- can a request for `e` legitimately be refused for this content? (only 7bit and 8bit ever can) -/
+def refusalLegit (isStr : Bool) (c : Bytes) (e : Enc) : Bool :=
+  match e with
+  | .sevenBit => !sevenBitOk (expectedContent isStr c) || lineTooLong c
+  | .eightBit => !linesOk 998 (expectedContent isStr c) || (expectedContent isStr c).contains 0 || lineTooLong c || !isStr
+  | _ => false
+
+/-- the body or the content handed to `MessageBuilder::body` / `SinglePartBuilder::body`, with or without a
+    Content-Transfer-Encoding header set beforehand: the header finally declared is the encoding of the emitted octets -/
+def variantOracle (isStr : Bool) (c : Bytes) (bodyRes : String) (v : String) : Option String :=
+  match v.splitOn "=" with
+  | [tag, val] =>
+    let t := tag.toList
+    match t with
+    | [w, inp, p] =>
+      let preset := encOf (String.ofList [p])
+      if val == "panic" then
+        -- `into_body` is documented to panic when the requested encoding cannot carry the content
+        if inp == 'R' && (match preset with | some e => refusalLegit isStr c e | none => false) then none
+        else some s!"builder-panics:{tag}"
+      else if w != 'm' && w != 'p' then some "bad-report" else
+      match val.splitOn ":" with
+      | [e, o] =>
+        match encOf e, ofHex o with
+        | some e', some o' =>
+          if inp == 'B' then
+            if bodyRes != s!"ok:{e}:{o}" then some s!"an-encoded-body-is-declared-or-emitted-differently:{tag}" else none
+          else if !promiseOk e' o' then some s!"emitted-octets-break-the-rules-of-the-declared-encoding:{tag}"
+          else if decodeAs e' o' != some (expectedContent isStr c) then some s!"decoding-as-declared-does-not-give-back-the-content:{tag}"
+          else if (match preset with | some pe => pe != e' | none => false) then some s!"declared-encoding-is-not-the-requested-one:{tag}"
+          else if preset.isNone && !(e' == .sevenBit || e' == .quotedPrintable || e' == .base64) then some s!"automatic-encoding-outside-7bit-qp-base64:{tag}"
+          else none
+        | _, _ => some s!"no-Content-Transfer-Encoding-declared:{tag}"
+      | _ => some "bad-report"
+    | _ => some "bad-report"
+  | _ => some "bad-report"
+
+def bodyOp1 : List String → String
   | [kind, req, content, res, part] =>
     if res == "PANIC" then propfail "panic" else
     match ofHex content with
@@ -67,6 +104,18 @@ def bodyOp : List String → String
       | _ => "BADLINE"
     | none => "BADLINE"
   | l => if l.getLast? == some "PANIC" then propfail "panic" else "BADLINE"
+
+def bodyOp : List String → String
+  | [kind, req, content, res, part, variants] =>
+    let r := bodyOp1 [kind, req, content, res, part]
+    if r != "ok" || variants == "-" then r else
+    match ofHex content with
+    | some c =>
+      match (variants.splitOn ",").findSome? (variantOracle (kind == "s") c res) with
+      | some e => if e == "bad-report" then "BADLINE" else propfail e
+      | none => "ok"
+    | none => "BADLINE"
+  | l => bodyOp1 l
 
 def simpleOp (f : Bytes → Bytes) (what : String) : List String → String
   | [inp, out] =>
